@@ -215,6 +215,12 @@ where
     ) -> bool {
         let mut is_success;
 
+        // start from a defined state: a failed KKT solve writes nothing, and
+        // would otherwise leave the iterate of a previous solve in place
+        variables.x.fill(T::zero());
+        variables.s.fill(T::zero());
+        variables.z.fill(T::zero());
+
         if data.P.nnz() == 0 {
             // LP initialization
             // solve with [0;b] as a RHS to get (x,-s) initializers
